@@ -276,6 +276,8 @@ class Engine:
         if isinstance(b, SStr) and isinstance(a, SConc) and isinstance(a.v, str):
             return b.t == z3.StringVal(a.v)
         if isinstance(a, SObj) and isinstance(b, SObj):
+            if getattr(s, "opaque_eq", None) is not None:
+                return s.opaque_eq(a.t, b.t)  # the sidecar supplies its own reading of Python's == on these objects
             s.assumed.add("== on opaque objects is identity of the abstract value (equal tracers denote the same value)")
             return a.t == b.t
         if isinstance(a, (SSeq, STup)) and isinstance(b, (SSeq, STup)):
@@ -302,6 +304,11 @@ class Engine:
             if isinstance(other, SObj):
                 return uf("is_None", Obj, B)(other.t)
             return z3.BoolVal(False)
+        if (isinstance(a, SObj) and isinstance(b, SInt) and z3.is_int_value(z3.simplify(b.t))) or (isinstance(b, SObj) and isinstance(a, SInt) and z3.is_int_value(z3.simplify(a.t))):
+            o, c = (a, b) if isinstance(a, SObj) else (b, a)
+            cv = z3.simplify(c.t).as_long()
+            s.abstracted.add(f"== between an opaque object and constant {cv!r}")
+            return uf(f"eq_const[{cv!r}]", Obj, B)(o.t)
         if isinstance(a, SConc) or isinstance(b, SConc):
             c, o = (a, b) if isinstance(a, SConc) else (b, a)
             if isinstance(o, (SInt, SBool)) and isinstance(c.v, (int, bool)):
